@@ -23,10 +23,16 @@ def cargo_env(seed):
     return env
 
 
-def cargo_test(filters, seed, extra_env=None, timeout=900):
+_TIMED_OUT = {"n": 0}
+
+
+def cargo_test(filters, seed, extra_env=None, timeout=420):
     env = cargo_env(seed)
     if extra_env:
         env.update(extra_env)
+    if _TIMED_OUT["n"] > 0:
+        # one twin run of this check has already failed to come back: the code under test hangs, further runs get little time
+        timeout = min(timeout, 120)
     cmd = ["cargo", "test", "-p", "saito-core", "--lib", "--offline", "--"] + list(filters) + ["--test-threads", "4"]
     t0 = time.time()
     # the crate's tests keep blocks and wallets in ./data under the crate directory: two test processes (checks of two
@@ -51,6 +57,7 @@ def cargo_test(filters, seed, extra_env=None, timeout=900):
             out, _ = p.communicate()
             out = (out or "") + "\nTIMEOUT after %d s" % timeout
             code = -1
+            _TIMED_OUT["n"] += 1
     finally:
         fcntl.flock(lock, fcntl.LOCK_UN)
         lock.close()
